@@ -15,16 +15,23 @@ def handle : Handler := fun j => do
     let s ← readSpec (← getObj j "spec")
     let typed := specTyped s
     let valueRT := Decode.decodeSpec (Encode.encodeSpec s) == some (some s)
+    let strs := specStrings s
+    let riskJ := strs.any jsonUnsafe
+    let riskY := strs.any yamlUnsafe
     let mut judge : Option String := none
     let mut agree := true
     for enc in ["json", "yaml", "noext", "cachejson", "cacheyaml"] do
       let o ← (← obs.getObjVal? enc).getStr?
       if o == "skipped" then continue
       -- the model (value layer + codec law) predicts a faithful round trip for every typed Spec
-      if (o == "equal") != (typed && valueRT) then agree := false
+      -- … except through the text codecs' two known classes of strings, where a failure may (need not) occur
+      let risk := if enc == "json" || enc == "cachejson" then riskJ else riskY
+      let consistent := if o == "equal" then typed && valueRT else risk
+      if !consistent then agree := false
       if o != "equal" && judge.isNone then judge := some s!"{enc}-roundtrip:{o}"
     pure (verdict agree judge (Json.bool valueRT)
-      [if typed then "typed" else "untyped", s!"devices{min s.devices.length 3}"])
+      ([if typed then "typed" else "untyped", s!"devices{min s.devices.length 3}"] ++
+       (if riskJ then ["has-json-unsafe-string"] else []) ++ (if riskY then ["has-yaml-unsafe-string"] else [])))
   | "string" =>
     -- one string placed in a string field, written and parsed back in both encodings
     let str ← getStr j "s"
